@@ -35,17 +35,43 @@ def check(run: Run) -> None:
     srcp = ("param", ps.pos_params[0])
     callerp = ("param", ps.pos_params[1])
 
-    # locate the filtered list: a comprehension over candidates with an equality on argument names
-    good_def = None
-    for n in own_nodes(ps):
-        if isinstance(n, ast.Assign) and isinstance(n.value, ast.ListComp) and len(n.value.generators) == 1 and len(n.value.generators[0].ifs) >= 1:
-            cond = ast.unparse(n.value.generators[0].ifs[0])
-            if "getfullargspec" in cond or "caller_arg_list" in cond or "arg" in cond:
-                good_def = n
-    if good_def is None:
-        raise AnalysisError("argument-name filter (list comprehension with a condition) not found in _parse_source_for_lambda")
-    good_name = good_def.targets[0].id  # type: ignore
-    good_t = strip_sites(fa.term_of(good_def.value, fa.cfg.node_of(good_def)))
+    # locate the filtered list - a comprehension over the candidates with a condition, or the equivalent
+    # "for c in candidates: if cond: good.append(c)" loop - in the scan or a private helper it calls
+    from ..lib import call_sites_of, unit
+    from ..terms import subst
+
+    located = []
+    for g_ in unit(m, ps):
+        for n in own_nodes(g_):
+            got = _filter_shape(g_, n)
+            if got is not None:
+                located.append((g_,) + got)
+    located = [x for x in located if any(k in ast.unparse(x[4]) for k in ("getfullargspec", "arg"))]
+    if len(located) != 1:
+        raise AnalysisError(f"argument-name filter (candidates kept under one condition) not found exactly once in _parse_source_for_lambda and its helpers (found {len(located)})")
+    g, good_def, good_name, cand_expr, cond_expr, elt_ok = located[0]
+    fg = ctx.analysis(g)
+    # g's parameters seen from the scan
+    binding = {}
+    if g is not ps:
+        sites = [(c_, call, skip) for c_, call, skip in call_sites_of(m, g) if c_ is ps]
+        if len(sites) != 1:
+            raise AnalysisError(f"{g.name} is not called exactly once from _parse_source_for_lambda")
+        _c, call, skip = sites[0]
+        for p_, a in zip(g.pos_params[skip:], call.args):
+            binding[("param", p_)] = strip_sites(fa.term_of(a))
+        for k in call.keywords:
+            binding[("param", k.arg)] = strip_sites(fa.term_of(k.value))
+        inv = {v: k for k, v in binding.items()}
+        srcp_g, callerp_g = inv.get(srcp), inv.get(callerp)
+        if srcp_g is None or callerp_g is None:
+            raise AnalysisError(f"{g.name} does not receive the callable and the caller name")
+    else:
+        srcp_g, callerp_g = srcp, callerp
+    picks = [n for n in own_nodes(g) if isinstance(n, ast.Subscript) and isinstance(n.value, ast.Name) and n.value.id == good_name and isinstance(n.slice, ast.Constant) and n.slice.value == 0 and isinstance(n.ctx, ast.Load)]
+    at = picks[0] if picks else good_def
+    good_t_g = strip_sites(fg.term_of(ast.Name(id=good_name, ctx=ast.Load()), fg.cfg.node_of(at))) if picks else strip_sites(fg.term_of(good_def.value, fg.cfg.node_of(good_def)))
+    good_t = subst(good_t_g, binding) if binding else good_t_g
 
     # ---------------- R1
     n_lam_ret = 0
@@ -62,10 +88,9 @@ def check(run: Run) -> None:
             run.check(ok_elem, "C03.R1", ps, s, "returned lambda is the single element of the argument-filtered list", f"a lambda is returned ({show(a)[:100]}) that did not pass the argument-name filter / uniqueness gate: with another lambda on the line the library can silently record a neighbour instead of raising", f"{good_name}[0] after the 0-match and >1-match raises", show(a))
     run.floor("C03.R1", n_lam_ret, 1, "lambda-returning alternatives")
     # the assignment lda = good[0] must be dominated by the two raises' negations
-    picks = [n for n in own_nodes(ps) if isinstance(n, ast.Subscript) and isinstance(n.value, ast.Name) and n.value.id == good_name and isinstance(n.slice, ast.Constant) and n.slice.value == 0 and isinstance(n.ctx, ast.Load)]
-    run.check(len(picks) == 1, "C03.R1", ps, ps.node, "one pick of the filtered list", f"{len(picks)} picks of {good_name}[0]")
+    run.check(len(picks) == 1, "C03.R1", g, g.node, "one pick of the filtered list", f"{len(picks)} picks of {good_name}[0]")
     for pk in picks:
-        fx = Facts(fa, pk)
+        fx = Facts(fg, pk)
         none = many = False
         for a, pol in fx.atoms:
             le = len_eq(a)
@@ -78,59 +103,72 @@ def check(run: Run) -> None:
                 many = True
                 if op == "Eq" and k == 1 and pol:
                     none = True
-        run.check(none, "C03.R1", ps, stmt_of(pk), "pick happens only when at least one candidate matched", "the pick is not guarded by 'no matching lambda -> raise'")
-        run.check(many, "C03.R1", ps, stmt_of(pk), "pick happens only when at most one candidate matched", "the pick is not guarded by 'several matching lambdas -> raise': one of several lambdas with the same argument names is chosen silently")
-    raises = [(ps, n) for n in own_nodes(ps) if isinstance(n, ast.Raise)]
-    for c in calls_in(ps):
-        if isinstance(c.func, ast.Name):
-            tgt = m.lookup_target(m.resolve_dotted(ps.module, ps, c.func.id))
-            from ..model import FuncInfo as _FI
-
-            if isinstance(tgt, _FI) and tgt.module is ps.module and tgt.name.startswith("_"):
-                raises += [(tgt, n) for n in own_nodes(tgt) if isinstance(n, ast.Raise)]
+        run.check(none, "C03.R1", g, stmt_of(pk), "pick happens only when at least one candidate matched", "the pick is not guarded by 'no matching lambda -> raise'")
+        run.check(many, "C03.R1", g, stmt_of(pk), "pick happens only when at most one candidate matched", "the pick is not guarded by 'several matching lambdas -> raise': one of several lambdas with the same argument names is chosen silently")
+    raises = [(f_, n) for f_ in unit(m, ps) for n in own_nodes(f_) if isinstance(n, ast.Raise)]
     for f_, r in raises:
         exc = r.exc.func if isinstance(r.exc, ast.Call) else r.exc
         run.check(isinstance(exc, ast.Name) and exc.id == "ValueError", "C03.R1", f_, r, "refusals are ValueError", f"refusal raises {ast.unparse(exc)}")
     run.floor("C03.R1", len(raises), 3, "raise statements in the source scan (incl. private helpers it calls)")
 
     # ---------------- R2
-    comp = good_def.value
-    gen = comp.generators[0]
-    elt_ok = isinstance(comp.elt, ast.Name) and isinstance(gen.target, ast.Name) and comp.elt.id == gen.target.id
-    run.check(elt_ok and len(gen.ifs) == 1, "C03.R2", ps, good_def, "filter keeps candidates unchanged under one condition", "the filtered list is not 'candidates that satisfy one condition'")
-    cond = good_t[3][0][1][0] if good_t[0] == "comp" and good_t[3] and good_t[3][0][1] else ("top", "?")
+    run.check(elt_ok, "C03.R2", g, good_def, "filter keeps candidates unchanged under one condition", "the filtered list is not 'candidates that satisfy one condition'")
+    cond = good_t_g[3][0][1][0] if good_t_g[0] == "comp" and good_t_g[3] and good_t_g[3][0][1] else ("top", "?")
     ok_cond = cond[0] == "op" and cond[1] == "Compare:Eq" and len(cond[2]) == 2
     lhs_ok = rhs_ok = False
     if ok_cond:
         for side in cond[2]:
             side = _inline_local_def(fa, ps, side)
-            if side[0] == "attr" and side[2] == "args" and side[1][0] == "app" and side[1][1] == ("global", "inspect.getfullargspec") and side[1][2] == (srcp,):
+            if side[0] == "attr" and side[2] == "args" and side[1][0] == "app" and side[1][1] == ("global", "inspect.getfullargspec") and side[1][2] == (srcp_g,):
                 rhs_ok = True
             if side[0] == "comp" and side[2][0] == "attr" and side[2][2] == "arg" and contains(side, lambda s: s[0] == "attr" and s[2] == "args" and s[1][0] == "attr" and s[1][2] == "args"):
                 lhs_ok = True
             if side[0] == "app" and side[1][0] == "global" and "lambda_arg_list" in side[1][1]:
-                lhs_ok = _arg_list_fn_ok(run, ctx, m, ps)
-    run.check(ok_cond and lhs_ok and rhs_ok, "C03.R2", ps, good_def, "condition is [a.arg for a in l.args.args] == inspect.getfullargspec(callable).args", f"the candidate filter is {show(cond)[:160]}: not full equality between the candidate's ordered parameter names and the callable's own", "lambda_arg_list(lda) == inspect.getfullargspec(ast_source).args")
+                lhs_ok = _arg_list_fn_ok(run, ctx, m, side[1][1])
+    run.check(ok_cond and lhs_ok and rhs_ok, "C03.R2", g, good_def, "condition is [a.arg for a in l.args.args] == inspect.getfullargspec(callable).args", f"the candidate filter is {show(cond)[:160]}: not full equality between the candidate's ordered parameter names and the callable's own", "lambda_arg_list(lda) == inspect.getfullargspec(ast_source).args")
 
     # ---------------- R3
-    cand_t = good_t[3][0][0] if good_t[0] == "comp" else ("top", "?")
-    ok3 = cand_t[0] == "ifexp" and cand_t[1] == ("op", "Compare:IsNot", (callerp, ("const", None))) and cand_t[2][0] == "subscript" and cand_t[2][2] == callerp
-    run.check(ok3, "C03.R3", ps, good_def, "with a caller name the candidates are bucket[caller_name]", f"candidates are {show(cand_t)[:140]}: not restricted to the lambdas that are arguments of the named caller", "lambdas_on_a_line[caller_name] if caller_name is not None else all")
+    cand_t = good_t_g[3][0][0] if good_t_g[0] == "comp" else ("top", "?")
+    want_b = lambda t: t[0] == "subscript" and t[2] == callerp_g  # noqa: E731
+    ok3 = cand_t[0] == "ifexp" and cand_t[1] == ("op", "Compare:IsNot", (callerp_g, ("const", None))) and want_b(cand_t[2])
+    if not ok3 and cand_t[0] == "ifexp" and cand_t[1] == ("op", "Compare:Is", (callerp_g, ("const", None))):
+        ok3 = want_b(cand_t[3])
+    if not ok3 and isinstance(cand_expr, ast.Name):
+        # statement form: every definition of the candidate list other than bucket[caller_name] is made under 'caller_name is None'
+        defs = [n for n in own_nodes(g) if isinstance(n, (ast.Assign, ast.AnnAssign)) and any(isinstance(t_, ast.Name) and t_.id == cand_expr.id for t_ in (n.targets if isinstance(n, ast.Assign) else [n.target])) and n.value is not None]
+        n_bucket = 0
+        ok3 = bool(defs)
+        for d in defs:
+            dt = strip_sites(fg.term_of(d.value, fg.cfg.node_of(d)))
+            if want_b(dt):
+                n_bucket += 1
+                continue
+            if dt[0] == "ifexp":
+                ok3 = False
+                continue
+            ok3 = ok3 and Facts(fg, d).compare_const(callerp_g, [ast.Is], None)
+        ok3 = ok3 and n_bucket >= 1
+    run.check(ok3, "C03.R3", g, good_def, "with a caller name the candidates are bucket[caller_name]", f"candidates are {show(cand_t)[:140]}: not restricted to the lambdas that are arguments of the named caller", "lambdas_on_a_line[caller_name] if caller_name is not None else all")
     # bucket key is the identifier preceding the lambda
-    apps = [c for c in calls_in(ps) if isinstance(c.func, ast.Attribute) and c.func.attr == "append" and isinstance(c.func.value, ast.Subscript)]
+    apps = [c for f_ in unit(m, ps) for c in calls_in(f_) if isinstance(c.func, ast.Attribute) and c.func.attr == "append" and isinstance(c.func.value, ast.Subscript)]
     run.check(len(apps) == 1, "C03.R3", ps, ps.node, "lambdas are bucketed by the preceding identifier", f"{len(apps)} bucket appends")
     os_cls = m.find_class("ObjectStream", in_module="func_adl.object_stream")
     for op in ("Select", "SelectMany", "Where"):
         fi = os_cls.methods.get(op)
         if fi is None:
             raise AnalysisError(f"anchor vanished: ObjectStream.{op}")
-        pcs = [c for c in calls_in(fi) if isinstance(c.func, ast.Name) and c.func.id == "parse_as_ast"]
-        ok = len(pcs) == 1 and len(pcs[0].args) == 2 and isinstance(pcs[0].args[1], ast.Constant) and pcs[0].args[1].value == op and isinstance(pcs[0].args[0], ast.Name) and pcs[0].args[0].id == fi.pos_params[1]
-        run.check(ok, "C03.R3", fi, stmt_of(pcs[0]) if pcs else fi.node, f"{op} recovers its own argument with caller name '{op}'", f"{op} does not call parse_as_ast(<its lambda argument>, '{op}'): lambdas of other operators on the same line are candidates")
+        from ..lib import call_events
+
+        evs = call_events(ctx, fi, lambda n: n == "parse_as_ast")
+        ok = len(evs) == 1 and evs[0].must and evs[0].args == (("param", fi.pos_params[1]), ("const", op)) and not evs[0].kwargs
+        ok = ok or (len(evs) == 1 and evs[0].must and evs[0].args == (("param", fi.pos_params[1]),) and evs[0].kwargs == (("caller_name", ("const", op)),))
+        run.check(ok, "C03.R3", fi, stmt_of(evs[0].call) if evs and evs[0].owner is fi else fi.node, f"{op} recovers its own argument with caller name '{op}'", f"{op} does not call parse_as_ast(<its lambda argument>, '{op}'): lambdas of other operators on the same line are candidates")
     pa = m.find_func("parse_as_ast", in_module=mod)
     fpa = ctx.analysis(pa)
-    pcs = [c for c in calls_in(pa) if isinstance(c.func, ast.Name) and c.func.id == "_parse_source_for_lambda"]
-    ok = len(pcs) == 1 and [strip_sites(fpa.term_of(a)) for a in pcs[0].args] == [("param", pa.pos_params[0]), ("param", pa.pos_params[1])]
+    from ..lib import call_events
+
+    pcs = call_events(ctx, pa, lambda nm: nm == ps.name)
+    ok = len(pcs) == 1 and list(pcs[0].args) == [("param", pa.pos_params[0]), ("param", pa.pos_params[1])]
     run.check(ok, "C03.R3", pa, pa.node, "parse_as_ast hands the callable and the caller name to the source scan", "parse_as_ast does not pass (callable, caller_name) to _parse_source_for_lambda")
 
     # ---------------- R5
@@ -207,8 +245,27 @@ def _inline_local_def(fa, fi, t):
     return t
 
 
-def _arg_list_fn_ok(run, ctx, m, ps) -> bool:
-    subs = [f for f in m.funcs.values() if f.parent_func is ps and f.name == "lambda_arg_list"]
+def _filter_shape(g, n):
+    """(stmt, list name, candidates expr, condition expr, elements-kept-unchanged) if n builds a filtered list."""
+    if isinstance(n, ast.Assign) and len(n.targets) == 1 and isinstance(n.targets[0], ast.Name) and isinstance(n.value, ast.ListComp) and len(n.value.generators) == 1 and len(n.value.generators[0].ifs) >= 1:
+        comp = n.value
+        gen = comp.generators[0]
+        elt_ok = isinstance(comp.elt, ast.Name) and isinstance(gen.target, ast.Name) and comp.elt.id == gen.target.id and len(gen.ifs) == 1
+        return n, n.targets[0].id, gen.iter, gen.ifs[0], elt_ok
+    if isinstance(n, ast.For) and isinstance(n.target, ast.Name) and len(n.body) == 1 and isinstance(n.body[0], ast.If) and not n.orelse:
+        br = n.body[0]
+        if len(br.body) == 1 and not br.orelse and isinstance(br.body[0], ast.Expr) and isinstance(br.body[0].value, ast.Call):
+            c = br.body[0].value
+            if isinstance(c.func, ast.Attribute) and c.func.attr == "append" and isinstance(c.func.value, ast.Name) and len(c.args) == 1:
+                elt_ok = isinstance(c.args[0], ast.Name) and c.args[0].id == n.target.id
+                return n, c.func.value.id, n.iter, br.test, elt_ok
+    return None
+
+
+def _arg_list_fn_ok(run, ctx, m, qual) -> bool:
+    subs = [f for f in m.funcs.values() if f.qual.replace(":", ".") == qual or f.qual == qual]
+    if len(subs) != 1:
+        subs = [f for f in m.funcs.values() if f.name == qual.split(".")[-1] and "lambda_arg_list" in f.name]
     if len(subs) != 1:
         return False
     f = subs[0]
@@ -231,6 +288,8 @@ def _check_brackets(run: Run, tt) -> None:
             if cond is None:
                 continue
             (inc if isinstance(n.op, ast.Add) else dec)[cond] = n.target.id
+    if not inc and not dec:
+        inc, dec = _table_counters(run, tt)
     run.floor("C03.R4", len(inc), 3, "bracket-open counters")
     for o, c in PAIRS.items():
         ok = o in inc and c in dec and inc[o] == dec[c]
@@ -247,8 +306,8 @@ def _check_brackets(run: Run, tt) -> None:
         fx = Facts(fa, r)
         zeros = set()
         for a, pol in fx.atoms:
-            if pol and isinstance(a, ast.Compare) and isinstance(a.left, ast.Name) and isinstance(a.ops[0], ast.Eq) and isinstance(a.comparators[0], ast.Constant) and a.comparators[0].value == 0:
-                zeros.add(a.left.id)
+            if pol and isinstance(a, ast.Compare) and _ckey(a.left) is not None and isinstance(a.ops[0], ast.Eq) and isinstance(a.comparators[0], ast.Constant) and a.comparators[0].value == 0:
+                zeros.add(_ckey(a.left))
         ok_stop = ok_stop and bool(counters) and zeros >= counters
     run.check(ok_stop, "C03.R4", tt, tt.node, "stop condition requires all three counters to be zero", "the stop token is honoured although some bracket kind is still open: a ',' or ')' inside brackets ends the lambda early")
     # comments are dropped: the yield is reached only for non-comment tokens
@@ -261,6 +320,56 @@ def _check_brackets(run: Run, tt) -> None:
             if isinstance(a, ast.Compare) and "COMMENT" in ast.unparse(a) and isinstance(a.ops[0], ast.Eq) and not pol:
                 ok_c = True
     run.check(ok_c, "C03.R4", tt, tt.node, "comment tokens are dropped", "comment tokens are not skipped: text in a comment becomes part of the recovered lambda source")
+
+
+def _ckey(e):
+    """identity of a counter: a local name, or a constant slot of a local list"""
+    if isinstance(e, ast.Name):
+        return e.id
+    if isinstance(e, ast.Subscript) and isinstance(e.value, ast.Name) and isinstance(e.slice, ast.Constant) and isinstance(e.slice.value, int):
+        return f"{e.value.id}[{e.slice.value}]"
+    return None
+
+
+def _table_counters(run: Run, tt):
+    """table-driven form: T = {"(": (slot, +1), ")": (slot, -1), ..}; under `x.string in T`: which, delta = T[x.string]; D[which] += delta"""
+    from ..terms import TermCtx as _T
+
+    inc, dec = {}, {}
+    tables = {}
+    for n in own_nodes(tt):
+        if isinstance(n, ast.Assign) and len(n.targets) == 1 and isinstance(n.targets[0], ast.Name) and isinstance(n.value, ast.Dict):
+            ent = {}
+            for k, v in zip(n.value.keys, n.value.values):
+                if isinstance(k, ast.Constant) and isinstance(k.value, str) and isinstance(v, ast.Tuple) and len(v.elts) == 2:
+                    try:
+                        slot, d = ast.literal_eval(v.elts[0]), ast.literal_eval(v.elts[1])
+                    except Exception:
+                        continue
+                    if isinstance(slot, int) and d in (1, -1):
+                        ent[k.value] = (slot, d)
+            if len(ent) == len(n.value.keys) and ent:
+                tables[n.targets[0].id] = ent
+    if len(tables) != 1:
+        return inc, dec
+    tname, ent = next(iter(tables.items()))
+    if sum(1 for n in own_nodes(tt) if isinstance(n, ast.Name) and n.id == tname and isinstance(n.ctx, ast.Store)) != 1:
+        return inc, dec
+    fa = _T(run.model, max_depth=1).analysis(tt)
+    for n in own_nodes(tt):
+        if isinstance(n, ast.AugAssign) and isinstance(n.op, ast.Add) and isinstance(n.target, ast.Subscript) and isinstance(n.target.value, ast.Name) and isinstance(n.target.slice, ast.Name) and isinstance(n.value, ast.Name):
+            which, delta, lst = n.target.slice.id, n.value.id, n.target.value.id
+            unpack = [a for a in own_nodes(tt) if isinstance(a, ast.Assign) and len(a.targets) == 1 and isinstance(a.targets[0], ast.Tuple) and [getattr(e, "id", None) for e in a.targets[0].elts] == [which, delta] and isinstance(a.value, ast.Subscript) and isinstance(a.value.value, ast.Name) and a.value.value.id == tname and "string" in ast.unparse(a.value.slice)]
+            stores = [a for a in own_nodes(tt) if isinstance(a, ast.Name) and a.id in (which, delta) and isinstance(a.ctx, ast.Store)]
+            if len(unpack) != 1 or len(stores) != 2:
+                continue
+            key = ast.unparse(unpack[0].value.slice)
+            guarded = any(pol and isinstance(a, ast.Compare) and len(a.ops) == 1 and isinstance(a.ops[0], ast.In) and ast.unparse(a.left) == key and isinstance(a.comparators[0], ast.Name) and a.comparators[0].id == tname for a, pol in Facts(fa, n).atoms)
+            if not guarded or not fa.cfg.dominates(fa.cfg.node_of(unpack[0]), fa.cfg.node_of(n)):
+                continue
+            for br, (slot, d) in ent.items():
+                (inc if d == 1 else dec)[br] = f"{lst}[{slot}]"
+    return inc, dec
 
 
 def _enclosing_if(n):
